@@ -453,6 +453,17 @@ def case_pairings(p):
         try:
             c1 = _controller()
             _apply_members(c1, members, pool)
+            life = p.get("lifecycle")
+            if life:
+                # the application winds down (or unloads one device) before it saves: the pairings are closed / shut down, not removed - the
+                # accessories are still paired, the file has to say so after the restart
+                for k, pr in enumerate(list(c1.aliases.values())):
+                    if life.endswith("-first") and k:
+                        break
+                    try:
+                        env.loop.run_coro(pr.shutdown() if life.startswith("shutdown") else pr.close(), 120.0)
+                    except Exception as e:  # noqa: BLE001
+                        return [(f"pairings:{life.split('-')[0]}-raises:{type(e).__name__}", {**p, "err": str(e)[:200]})]
             c1.save_data(fname)
         except Exception as e:  # noqa: BLE001
             return [(f"pairings:save-raises:{type(e).__name__}", {**p, "err": str(e)[:200]})]
@@ -1150,6 +1161,7 @@ def run(ctx):
     sets.append(names)
     sets.append(list(reversed(names)))
     pl = [{"members": s, "seed": seed} for s in sets] + [{"members": s, "seed": seed, "subdir": True} for s in ([], ["ip"], names)]
+    pl += [{"members": s, "seed": seed, "lifecycle": life} for life in ("shutdown-all", "shutdown-first", "close-all", "close-first") for s in ([["ip"], ["coap"], ["ble"], ["ip", "ble"], names] if quick else sets[1:])]
     work += _chunks("pairings", pl, 25)
     ctx.bounds["pairings"] = dict(pool=sorted(pool), sets="all subsets of size <= " + ("2" if quick else "3") + " + the whole pool in both orders")
 
